@@ -35,6 +35,10 @@ def ir_wrappers(uexprs):
             emit("z_plus_q", rt, "return (au::ZERO + zq%d(x)).in(ZU%d{});" % (k, k), "return ZR%d{0} + x;" % k)
             emit("q_minus_z", rt, "return (zq%d(x) - au::ZERO).in(ZU%d{});" % (k, k), "return x - ZR%d{0};" % k)
             emit("z_minus_q", rt, "return (au::ZERO - zq%d(x)).in(ZU%d{});" % (k, k), "return ZR%d{0} - x;" % k)
+            # the compound forms of the same additions, and assignment
+            emit("q_pluseq_z", "ZR%d" % k, "auto q = zq%d(x); q += au::ZERO; return q.in(ZU%d{});" % (k, k), "ZR%d y = x; y += ZR%d{0}; return y;" % (k, k))
+            emit("q_minuseq_z", "ZR%d" % k, "auto q = zq%d(x); q -= au::ZERO; return q.in(ZU%d{});" % (k, k), "ZR%d y = x; y -= ZR%d{0}; return y;" % (k, k))
+            emit("q_assign_z", "ZR%d" % k, "auto q = zq%d(x); q = au::ZERO; return q.in(ZU%d{});" % (k, k), "ZR%d y = x; y = ZR%d{0}; return y;" % (k, k))
             k += 1
     return "\n".join(lines) + "\n", pairs
 
@@ -50,6 +54,8 @@ def w_items(uexprs, rnd, thorough):
                 "constexpr Q{j} c{j} = au::ZERO; static_assert(c{j}.in(U{{}}) == 0 && c{j} == au::ZERO && !(c{j} != au::ZERO), \"copy-init from ZERO\");\n"
                 "static_assert(au::make_quantity<U>(R{j}{{3}}) > au::ZERO && au::ZERO < au::make_quantity<U>(R{j}{{3}}), \"ordering against ZERO\");\n"
                 "static_assert(au::make_quantity<U>(R{j}{{3}}) + au::ZERO == au::make_quantity<U>(R{j}{{3}}) && au::make_quantity<U>(R{j}{{3}}) - au::ZERO == au::make_quantity<U>(R{j}{{3}}), \"q +- ZERO == q\");\n"
+                "struct CZ{j} {{ static constexpr Q{j} pe() {{ Q{j} q = au::make_quantity<U>(R{j}{{3}}); q += au::ZERO; q -= au::ZERO; return q; }} static constexpr Q{j} as() {{ Q{j} q = au::make_quantity<U>(R{j}{{3}}); q = au::ZERO; return q; }} }};\n"
+                "static_assert(CZ{j}::pe() == au::make_quantity<U>(R{j}{{3}}) && CZ{j}::as() == au::ZERO, \"q += ZERO, q -= ZERO leave q alone; q = ZERO is zero\");\n"
                 "static_assert(min(au::make_quantity<U>(R{j}{{3}}), au::ZERO) == au::ZERO && max(au::ZERO, au::make_quantity<U>(R{j}{{3}})) == au::make_quantity<U>(R{j}{{3}}), \"min/max with ZERO\");\n"
                 "static_assert(clamp(au::make_quantity<U>(R{j}{{3}}), au::ZERO, au::make_quantity<U>(R{j}{{2}})) == au::make_quantity<U>(R{j}{{2}}), \"clamp with ZERO\");\n"
                 "constexpr R{j} z{j} = au::ZERO; static_assert(z{j} == 0, \"ZERO converts to 0 of the arithmetic type\");"
